@@ -272,6 +272,13 @@ def gen_config(ch, bias=None):
         cfg['ctor'] = ch.choice('cfg.ctor', ('call', 'call', 'create_pos', 'create_kw', 'call_kw'))
     if bias.get('big_mults') and code in PREDEFINED and PREDEFINED[code][1] != 'minbet':
         cfg['big_mult'] = ch.choice('cfg.big_mult', bias['big_mults'])
+    if ch.chance('cfg.forced_allin', bias.get('forced_allin_num', 0), 16) and cfg['antes'] and not isinstance(cfg['antes'], dict):
+        # forced-bet all-in table: everybody (or everybody but one) sits with no more than his ante, so that the first
+        # betting round never opens and the hand goes from the forced bets straight to the run-out
+        antes = cfg['antes'] if isinstance(cfg['antes'], list) else [cfg['antes']] * n
+        keep = ch.pick('cfg.forced_allin.keep', n + 1)         # seat n = nobody keeps a deep stack
+        cfg['stacks'] = [s if i == keep else max(1, min(s, antes[i])) for i, s in enumerate(cfg['stacks'])]
+        cfg['forced_allin'] = True
     return cfg
 
 
